@@ -317,7 +317,7 @@ class Ctx:
         with open(trace) as f:
             for line in f:
                 e = json.loads(line)
-                if e.get("ev") in ("reset", "teardown", "flags", "flag"):
+                if e.get("ev") in ("reset", "teardown", "flags", "flag", "crash", "begin"):
                     continue
                 self.evaluations += 1
                 if nontrivial(e):
